@@ -861,9 +861,9 @@ func runCrashCase(c core.Case, focus string) core.Result {
 				json.Unmarshal(b2, &cp2)
 				seqs++
 				cc.classes[fmt.Sprintf("%s|%s:%s", cp2.Phase, cp2.Op, fileClass(cp2.File))]++
-				if depth3 && m%3 == 1 {
+				if depth3 && m%8 == 1 {
 					// third crash inside the second recovery
-					for m3 := 1; m3 < 400; m3 += 2 {
+					for m3 := 1; m3 < 400; m3 += 4 {
 						d3 := filepath.Join(cc.base, fmt.Sprintf("d%d-%d-%d", n, m, m3))
 						copyDir(d2, d3)
 						code3, _ := child(cc.env, "crash-reopen", d3, s, cc.caseFile, strconv.Itoa(m3))
@@ -1045,10 +1045,10 @@ func genCrash(focus, tier string, seed int64) []core.Case {
 			add(4, spec{"closepending", 0, 1, 24, 16, 1})
 			add(3, spec{"bigtxn", 1, 1, 24, 16, 1})
 			add(4, spec{"restarts", 1, 1, 40, 16, 1})
-			seqEvery, depth3 = 8, 1
+			seqEvery, depth3 = 12, 1
 		}
 	case "C04":
-		seqEvery = 8
+		seqEvery = 12
 		if quick {
 			seqEvery = 24
 			add(2, spec{"multikey", 1, 1, 22, 8, 1})
@@ -1199,7 +1199,7 @@ func init() {
 	common := "a workload process executes a seeded program (20-60 transactions of 1-6 Set/Delete with unique values, thresholds that force rotation, flush and compaction every few commits; drained = the flusher is awaited after each commit so the operation sequence is deterministic, free-running = flusher concurrent, 1-3 writers with disjoint keys) and is killed with os.Exit inside the hook before its N-th mutating file-system operation (create/write/fsync/rename/remove of wal and table files); every N of the program is enumerated (cases partition N by residue class; quick samples every second class of free-running programs); a fresh process recovers, reads every key, commits to every key, closes, reopens and reads again; oracle = acknowledgement log written outside the database directory (CALL before Update, ACK after it returned nil)"
 	core.Register(&core.Check{
 		Prop: "C03", Level: "fault_enumeration",
-		Rule:     common + "; acknowledged writes must be visible, keys of the commit in flight old or new, no alien values, Open must succeed, post-recovery commits retained; at every 8th (thorough) / 24th (quick) crash point the recovery is itself killed before each of its operations and recovered again (thorough: a third crash inside the second recovery); evidence counts crash points and sequences (evaluations), all distinct by (program, kill index[, recovery kill indices]); non-trivial = the kill actually happened and the recovery was judged",
+		Rule:     common + "; acknowledged writes must be visible, keys of the commit in flight old or new, no alien values, Open must succeed, post-recovery commits retained; at every 12th (thorough) / 24th (quick) crash point the recovery is itself killed before each of its operations and recovered again (thorough: a third crash inside the second recovery); evidence counts crash points and sequences (evaluations), all distinct by (program, kill index[, recovery kill indices]); non-trivial = the kill actually happened and the recovery was judged",
 		Gen:      func(tier string, seed int64) []core.Case { return genCrash("C03", tier, seed) },
 		Run:      func(c core.Case) core.Result { return runCrashCase(c, "C03") },
 		Post:     crashPost("C03"),
@@ -1212,7 +1212,7 @@ func init() {
 	})
 	core.Register(&core.Check{
 		Prop: "C04", Level: "fault_enumeration",
-		Rule:     common + "; programs are biased to 3-6-key transactions and to memtable thresholds that make a transaction straddle a rotation; rules: among the keys of the transaction whose CALL has no ACK, new and old values must not both occur; among the keys whose last acknowledged writer is one transaction, all read its writes or none does; at every 24th (quick) / 8th (thorough) crash point the recovery is itself killed before each of its operations and recovered again; evidence counts crash points (evaluations); non-trivial = crash point that fell between CALL and ACK of a transaction writing >=2 keys; distinct by (program, kill index)",
+		Rule:     common + "; programs are biased to 3-6-key transactions and to memtable thresholds that make a transaction straddle a rotation; rules: among the keys of the transaction whose CALL has no ACK, new and old values must not both occur; among the keys whose last acknowledged writer is one transaction, all read its writes or none does; at every 24th (quick) / 12th (thorough) crash point the recovery is itself killed before each of its operations and recovered again; evidence counts crash points (evaluations); non-trivial = crash point that fell between CALL and ACK of a transaction writing >=2 keys; distinct by (program, kill index)",
 		Gen:      func(tier string, seed int64) []core.Case { return genCrash("C04", tier, seed) },
 		Run:      func(c core.Case) core.Result { return runCrashCase(c, "C04") },
 		Post:     crashPost("C04"),
